@@ -572,6 +572,9 @@ func (vc *VC) strSub(s, lo, hi string) string {
 }
 
 func (vc *VC) execTypeAssert(fr *Frame, st *State, pc string, t *ssa.TypeAssert, x Term) {
+	if fr.spec != nil && len(fr.spec.Asserts) > 0 {
+		vc.atCall(fr, st, pc, "typeassert", vc.callOrdinal(fr, t, "typeassert"), t)
+	}
 	at := t.AssertedType
 	var okc string
 	if _, isIface := at.Underlying().(*types.Interface); isIface {
